@@ -94,6 +94,78 @@ def keyRequestError (resp : KeyResponse) : Option KeyErr :=
   else if resp.numResp != resp.numNodes then some (.missing resp.numResp resp.numNodes)
   else none
 
+/-! ### The loop as written (regenerated: `SerfModel.Gen.KeyStream`) -/
+
+structure StreamShape where
+  /-- classified statements of the loop body, in order -/
+  order : List String
+  /-- `var nodeResponse nodeKeyResponse` is declared inside the loop -/
+  targetFresh : Bool
+  /-- the wrong-type branch does `NumErr++` and `goto NEXT` -/
+  typeErrCounts : Bool
+  /-- the decode-error branch does `NumErr++` and `goto NEXT` -/
+  decodeErrCounts : Bool
+  /-- condition of the early return at NEXT -/
+  stopTest : String
+  deriving DecidableEq, Repr
+
+/-- The shape `stepOne` / `streamLoop` transcribe. -/
+def StreamShape.asModelled (s : StreamShape) : Bool :=
+  s.order == ["declTarget", "countResp", "typeCheck", "decode", "effects", "next"] && s.targetFresh &&
+  s.typeErrCounts && s.decodeErrCounts && s.stopTest == "resp.NumResp == resp.NumNodes"
+
+/-- `stepOne` with the path conditions of the four effects of a decoded reply as parameters
+(regenerated from the source as `Gen.KeyStream.{errGuard,msgGuard,keysGuard,primaryGuard}`). -/
+def stepOneG (errG msgG keysG primG : NodeKeyResp → Bool) (resp : KeyResponse) (r : NR) : KeyResponse :=
+  let resp := { resp with numResp := resp.numResp + 1 }
+  match r.payload with
+  | .badType => { resp with messages := ainsert resp.messages r.sender .invalidType, numErr := resp.numErr + 1 }
+  | .undecodable => { resp with messages := ainsert resp.messages r.sender .decodeFailed, numErr := resp.numErr + 1 }
+  | .decoded n =>
+    let resp := if errG n then { resp with numErr := resp.numErr + 1 } else resp
+    let resp := if msgG n then { resp with messages := ainsert resp.messages r.sender (.text n.message) } else resp
+    { resp with keys := if keysG n then n.keys.foldl inc resp.keys else resp.keys,
+                primary := if primG n then inc resp.primary n.primary else resp.primary }
+
+/-! ### The loop over raw payloads with its decode target made explicit
+
+msgpack assigns only the fields present in a reply, so what a reply decodes to depends on what
+`nodeResponse` held before: the decoder is a function of the previous contents.  `fresh = true`
+(the declaration sits inside the loop) starts every reply from the zero value. -/
+
+abbrev Bytes := List UInt8
+
+/-- `messageKeyResponseType` (serf/messages.go, iota = 8). -/
+def keyResponseType : UInt8 := 8
+
+abbrev DecoderInto := NodeKeyResp → Bytes → Option NodeKeyResp
+
+def zeroResp : NodeKeyResp := ⟨false, "", [], ""⟩
+
+/-- Type check and decode of one payload into a target holding `start`: the classification the
+aggregation sees, and the target afterwards. -/
+def classifyInto (dec : DecoderInto) (start : NodeKeyResp) (payload : Bytes) : Payload × NodeKeyResp :=
+  match payload with
+  | [] => (.badType, start)
+  | t :: rest =>
+    if t == keyResponseType then
+      match dec start rest with
+      | none => (.undecodable, start)
+      | some n => (.decoded n, n)
+    else (.badType, start)
+
+def streamRawLoop (fresh : Bool) (dec : DecoderInto) (resp : KeyResponse) (var : NodeKeyResp) :
+    List (String × Bytes) → KeyResponse
+  | [] => resp
+  | (sender, p) :: rs =>
+    let c := classifyInto dec (if fresh then zeroResp else var) p
+    let resp' := stepOne resp ⟨sender, c.1⟩
+    if resp'.numResp == resp'.numNodes then resp' else streamRawLoop fresh dec resp' c.2 rs
+
+/-- `streamKeyResp` on raw payloads. -/
+def streamKeyRespRaw (fresh : Bool) (dec : DecoderInto) (numNodes : Nat) (rs : List (String × Bytes)) : KeyResponse :=
+  streamRawLoop fresh dec { numNodes := numNodes } zeroResp rs
+
 /-! ### The truncation loop -/
 
 /-- What a reply says about truncation: `none` = the handler's original message,
